@@ -192,6 +192,9 @@ def run(chk):
         no_int_arith(chk, "R-IDX", GP, lambda I, st, fi, pt=pt: dict(values=rec_array("values", dtype="int"), ptype=const_av(pt)),
                      "eqsig/fns/peaks_and_crossings.py:get_peak_array_indices(ptype=%s, integer samples)" % pt, what="integer-typed samples")
     ncyc_rules(chk)
+    from ..tyob import leading_zero_tests
+    _fi = chk.P.fn(PK + "get_n_cyc_array")
+    leading_zero_tests(chk, "R-NCYC", _fi, "indys", "eqsig/fns/peaks_and_crossings.py:get_n_cyc_array", what="a missing index 0", minimum=0)
     chk.floor("R-PARTITION", 3)
     chk.floor("R-CLEANED", 1)
     chk.floor("R-IDX", 8)
@@ -320,6 +323,10 @@ def ncyc_rules(chk):
                 chk.ob("R-NCYC", cc + "{interp}", "interp(arange(len(values)), peak indices, cycle numbers)", x.length() == LinExpr("n") and x.f0 and
                        "arange0" in x.tags and "where-index" in xp.tags and "arange0" in fp.tags and "where-index" not in fp.tags - xp.tags or
                        (x.length() == LinExpr("n") and "where-index" in xp.tags), derived="x len %r" % (x.length(),), loc=ip[0].loc)
+                # the counter starts at the first sample: the peak indices handed to the interpolation begin with index 0 on every path
+                # (inserted when missing -- np.insert(indices, 0, 0) under `indices[0] != 0`)
+                chk.ob("R-NCYC", cc + "{origin}", "the interpolation nodes begin with index 0 on every path", bool(xp.f0),
+                       derived="first node is 0: %s" % bool(xp.f0), loc=ip[0].loc, inconclusive=xp.indef and not xp.f0)
             fp_parts = ip[0].args[2].parts if len(ip) == 1 else None
             chk.ob("R-NCYC", cc + "{shift}", "cycle numbers are 0 for the first index and 0.5*k %+g for the k-th (k >= 1)" % shift,
                    fp_parts == ("ap", 0.5, 0.0, shift) or fp_parts == ("ap", 0.5, 0, shift),
